@@ -499,6 +499,15 @@ pub fn run(run: &Run) {
             }
         }
     }
+    // longer operands for the matrix-vector forms (an unrolled direct kernel would start its second block at 16)
+    for &r in &[15usize, 16, 17, 24, 33, 40] {
+        for &c in &[1usize, 3, 8, 17] {
+            for n in [r, c] {
+                mv.push((r, c, n));
+                mv.push((c, r, n));
+            }
+        }
+    }
     mv.par_iter().for_each(|&(r, c, n)| {
         let av = fill(r, c, 0);
         let a = Matrix::new(av.clone(), r as i32, c as i32);
